@@ -115,6 +115,7 @@ macro "pm" : tactic => `(tactic| repeat' pm_step)
 @[pm_simps] theorem pm_isFalsy (v : V) : PM (isFalsy v) := by unfold isFalsy; pm
 @[pm_simps] theorem pm_vEqual (F : FloatOps) (l r : V) : PM (vEqual F l r) := by unfold vEqual; pm
 @[pm_simps] theorem pm_vBinaryOp (F : FloatOps) (tok : Tok) (l r : V) : PM (vBinaryOp F tok l r) := by unfold vBinaryOp; pm
+@[pm_simps] theorem pm_vUnary (F : FloatOps) (tok : Tok) (r : V) : PM (vUnary F tok r) := by unfold vUnary; pm
 @[pm_simps] theorem pm_vIndexGet (t i : V) : PM (vIndexGet t i) := by unfold vIndexGet; pm
 @[pm_simps] theorem pm_vIndexSet (t i v : V) : PM (vIndexSet t i v) := by unfold vIndexSet; pm
 @[pm_simps] theorem pm_mkErr (n m : String) (c : Option Addr) : PM (mkErr n m c) := by unfold mkErr; pm
